@@ -80,7 +80,8 @@ TASKS = [FunctionTask(SPLIT, module_env={"TimeSeries": TS_CTOR}, clauses=["k who
 
 META = dict(
     level="other",
-    explanation="",
+    explanation="proved: TimeSeries.split (interval count under the float model, tiling, shared boundary sample, error case, frame); bounded: "
+                "order of the preprocessing steps (orient, filter whole record, split, detrend per window) and component-wise split of recordings",
     trusted_base=["A-REAL except / and + in TimeSeries.split which use the relative-error float model", "A-PY", "A-NP-ALLOC", "PyVC engine + z3/cvc5"],
     assumptions=["A-REAL", "A-FLOAT-MODEL(split)", "A-PY", "A-NP-ALLOC"],
 )
